@@ -7,7 +7,8 @@ package main
 //               sequences: Len/Contains/Equal/containsAll/containsAny through the public API AND through eval.Eval,
 //               against the Lean table model (run with the real and three terrible hashes) and the list model.
 //  (c) oracle:  the set-theoretic answer on sorted duplicate-free canonical renderings; equality laws.
-//  (d) immutability histories (Go only) and JSON forms of equal values.
+//  (d) immutability histories: Go-side oracle here; replayed step by step on the Lean heap model (Model/Alias.lean) in c11_alias.go;
+//      JSON forms of equal values.
 
 import (
 	"encoding/json"
@@ -581,6 +582,7 @@ func runC11(c *vh.Ctx) {
 
 	// ---------------------------------------------------------------- (d) immutability + JSON
 	c11Immutability(c, univ)
+	c11AliasHistories(c, univ) // the same kind of histories on the Lean heap model, step by step (c11_alias.go)
 	c11JSON(c, pool)
 }
 
